@@ -1,6 +1,7 @@
 // Driver for C13: injects echo requests (IPv4 plain/fragmented/multi-view,
 // IPv6) into a real stack and records requests and emitted replies.
-//   icmpd run <scenarios.json> <out.ndjson>
+//
+//	icmpd run <scenarios.json> <out.ndjson>
 package main
 
 import (
@@ -24,8 +25,15 @@ type reqSpec struct {
 	Dup   bool   `json:"dup"`   // duplicate one fragment
 }
 
+// burstCtl: what happens around burst i (same index as Bursts).
+type burstCtl struct {
+	Stall  bool   `json:"stall"`  // the link's transmit path is stalled while the burst is injected (the echo queue fills up)
+	RmAddr string `json:"rmaddr"` // after the burst has quiesced: remove this address (own1/own2) from the interface
+}
+
 type scenario struct {
 	Bursts [][]reqSpec `json:"bursts"`
+	Ctl    []burstCtl  `json:"ctl"`
 	MTU    int         `json:"mtu"`
 }
 
@@ -82,7 +90,15 @@ func runScenario(si int, sc scenario, tr *vh.Trace, shortWait *bool) {
 	pendingKeys := map[key]bool{}
 	cond := sync.NewCond(&mu)
 	tr.Log(map[string]interface{}{"ev": "reset", "scenario": si})
+	var stallCh chan struct{}
+	assigned := map[string]bool{"own1": true, "own2": true}
 	link.OnEmit = func(l *wire.Link, f wire.Frame) {
+		mu.Lock()
+		g := stallCh
+		mu.Unlock()
+		if g != nil {
+			<-g // transmit path stalled: the sender (the echo replier goroutine) blocks here
+		}
 		ev := map[string]interface{}{"ev": "reply", "raw": len(f.Bytes)}
 		switch f.Proto {
 		case wire.ProtoIPv4:
@@ -134,11 +150,39 @@ func runScenario(si int, sc scenario, tr *vh.Trace, shortWait *bool) {
 		mu.Unlock()
 	}
 	id := 0
-	for _, burst := range sc.Bursts {
+	for bi, burst := range sc.Bursts {
+		var ctl burstCtl
+		if bi < len(sc.Ctl) {
+			ctl = sc.Ctl[bi]
+		}
+		if ctl.Stall {
+			mu.Lock()
+			stallCh = make(chan struct{})
+			tr.Log(map[string]interface{}{"ev": "note", "why": "tx stalled"})
+			mu.Unlock()
+		}
+		unstall := func() {
+			mu.Lock()
+			if stallCh != nil {
+				close(stallCh)
+				stallCh = nil
+			}
+			mu.Unlock()
+		}
+		finishBurst := func() {
+			if ctl.RmAddr != "" {
+				h.S.RemoveAddress(1, wire.A4(addr4[ctl.RmAddr]))
+				h.S.RemoveAddress(1, wire.A6(addr6[ctl.RmAddr]))
+				assigned[ctl.RmAddr] = false
+				mu.Lock()
+				tr.Log(map[string]interface{}{"ev": "note", "why": "address removed", "which": ctl.RmAddr})
+				mu.Unlock()
+			}
+		}
 		for _, r := range burst {
 			id++
 			payload := wire.Pattern(si*1000+id, r.PLen)
-			own := r.Dst == "own1" || r.Dst == "own2"
+			own := assigned[r.Dst]
 			k := key{r.V, r.Ident, r.Seq}
 			ev := map[string]interface{}{"ev": "req", "id": id, "v": r.V, "own": own, "ident": r.Ident, "seq": r.Seq, "pay": pay(payload)}
 			if r.V == 4 {
@@ -206,6 +250,10 @@ func runScenario(si int, sc scenario, tr *vh.Trace, shortWait *bool) {
 				}
 			}
 		}
+		if ctl.Stall {
+			time.Sleep(2 * time.Millisecond)
+			unstall()
+		}
 		// wait for the replies that are owed (state-based; the deadline is only a give-up bound)
 		deadline := 10 * time.Second
 		if *shortWait {
@@ -236,6 +284,7 @@ func runScenario(si int, sc scenario, tr *vh.Trace, shortWait *bool) {
 			mu.Lock()
 			tr.Log(map[string]interface{}{"ev": "quiesce", "gaveup": true})
 			mu.Unlock()
+			finishBurst()
 			continue
 		}
 		// let late (unsolicited/duplicate) replies show up before the next burst
@@ -243,6 +292,7 @@ func runScenario(si int, sc scenario, tr *vh.Trace, shortWait *bool) {
 		mu.Lock()
 		tr.Log(map[string]interface{}{"ev": "quiesce"})
 		mu.Unlock()
+		finishBurst()
 	}
 	link.OnEmit = nil
 }
